@@ -3,5 +3,5 @@ CONSTANTS NMin = 3
           NMax = 10
           TailNMax = 32
           LatN = {9, 11, 12, 14, 16, 18, 20, 21, 24, 27, 28, 29, 30, 31, 32}
-INVARIANT TailOk PairsOk ShiftOk LatOk DTailOk
+INVARIANT TailOk PairsOk ShiftOk LatOk DTailOk ATailOk
 CHECK_DEADLOCK FALSE
